@@ -2,9 +2,8 @@
    Model: C05.Model (transcription of lib/mapping on the repaired tree), Spec: C05.Spec.agrees.
    `unm_struct n fs m` is the code run on a struct with fields fs against the object m at ANY nesting level
    (top level, nested struct, slice/map element); field i of the struct corresponds to value i of the result.
-   NOT covered by a theorem: c05_roundtrip (httpc.buildRequest -> httpx.Parse is not modelled);
-   c05_exact is proved for scalar fields / scalar elements only (`_partial`): the lifting of `agrees` through
-   slices, maps and nested structs is checked on every correspondence case by Exec.spec_ok, not proved. *)
+   c05_roundtrip (httpc.buildRequest -> httpx.Parse): c05_roundtrip_partial (transport parts) + correspondence
+   (Exec.spec_ok on the round-trip stream: parsed struct = sent struct). *)
 From God Require Import Base.Prelude C05.Model C05.Spec C05.Proofs.
 From Coq Require Import String Ascii.
 Local Open Scope Z_scope.
@@ -14,25 +13,33 @@ Theorem c05_never_panics : forall n t d, wf_ty t = true -> unmarshal n t d <> Pa
 Proof. exact never_panics. Qed.
 Print Assumptions c05_never_panics.
 
-(* exactness of a present scalar (or pointer-to-scalar) field: the value IS the document's value -- the same
-   integer, and it fits the kind (leaf_agrees: parse_signed token = Some z /\ fits_int/fits_uint w z); bool,
-   string, Duration and float tokens likewise.  dur_opts_ok: no options=/range= on a Duration field. *)
-Theorem c05_exact_partial : forall strict n fs m vs i f w d k,
-  unm_struct n fs m = Ok (VStruct vs) ->
-  nth_error fs i = Some f -> nth_error vs i = Some w -> f_anon f = false ->
-  deref (f_ty f) = Prim k -> dur_opts_ok (f_ty f) (f_opts f) ->
-  olookup (f_key f) m = Some d -> d <> JNull ->
-  agrees strict (f_ty f) d w = true.
-Proof. intros. eapply struct_scalar_present; eauto. Qed.
-Print Assumptions c05_exact_partial.
+(* EXACT: whenever unmarshalling succeeds the struct agrees with the document (Spec.agrees): every present number
+   is the same integer and fits its kind, bool/string/Duration/nested values are the document's, slices, maps,
+   pointers, nested and embedded structs element by element, absent fields carry their default or stay zero, no
+   required field is absent, options= and range= hold.  For every fuel, every document and every type in `wfx`:
+   options=/range= declared only where the code consults them (opts_okb: not on Duration without `string`, not on
+   containers, no range= on bool/string/float), embedded fields are structs, members of an OPTIONAL embedded struct
+   are named and declare no default. *)
+Theorem c05_exact : forall n t d v, wfx t = true -> unmarshal n t d = Ok v -> agrees t d v = true.
+Proof. exact exact. Qed.
+Print Assumptions c05_exact.
+
+(* the same at every nesting level and for every entry point of the recursion *)
+Theorem c05_exact_everywhere : forall n,
+  (forall fs m v, wfx (Struct fs) = true -> unm_struct n fs m = Ok v -> agrees (Struct fs) (JObj m) v = true) /\
+  (forall f m w, wfx_field f = true -> unm_field n f m = Ok w -> field_agrees f m w = true) /\
+  (forall t et d v, wfx et = true -> fill_slice n t et d = Ok v -> (exists e, t = Slice e) /\ agrees (Slice et) d v = true) /\
+  (forall et d v, wfx et = true -> gen_map n et d = Ok v -> agrees (Map et) d v = true).
+Proof. exact exact_fuel. Qed.
+Print Assumptions c05_exact_everywhere.
 
 (* exactness of every scalar written into a slice / map element, a `string`-tagged field or from a default:
    all of them go through convertType + setMatchedPrimitiveValue; a number token through
    processFieldPrimitiveWithJSONNumber.  No wrap, no truncation: the result denotes the token's integer. *)
-Theorem c05_exact_elements_partial :
+Theorem c05_exact_scalars :
   (forall k s fi v, convert_set k s fi = Ok v ->
      leaf_agrees k (match fi with Some i => JNum s i | None => JStr s end) v = true) /\
-  (forall t o raw fi w, json_number t o raw fi = Ok w -> agrees true t (JNum raw fi) w = true) /\
+  (forall t o raw fi w, json_number t o raw fi = Ok w -> agrees t (JNum raw fi) w = true) /\
   (forall w z raw fi, leaf_agrees (KInt w) (JNum raw fi) (VInt z) = true -> parse_signed raw = Some z /\ fits_int w z = true) /\
   (forall w z raw fi, leaf_agrees (KUint w) (JNum raw fi) (VInt z) = true -> parse_signed raw = Some z /\ fits_uint w z = true).
 Proof.
@@ -42,10 +49,10 @@ Proof.
   - intros w z raw fi H. simpl in H. destruct (parse_signed raw); [|discriminate]. apply andb_true_iff in H as [H1 H2].
     apply Z.eqb_eq in H1. subst. auto.
 Qed.
-Print Assumptions c05_exact_elements_partial.
+Print Assumptions c05_exact_scalars.
 
-(* a required field (no default, not optional; scalar, pointer, slice, or struct with a required member) that is
-   absent makes the whole struct fail *)
+(* a required field (no default, not optional; scalar, pointer, slice, MAP, or struct with a required member)
+   that is absent makes the whole struct fail *)
 Theorem c05_required : forall n fs m i f,
   nth_error fs i = Some f -> f_anon f = false ->
   olookup (f_key f) m = None -> o_default (f_opts f) = None -> o_optional (f_opts f) = false ->
@@ -54,14 +61,10 @@ Theorem c05_required : forall n fs m i f,
 Proof. exact struct_required. Qed.
 Print Assumptions c05_required.
 
-(* ... but an absent required MAP field is silently filled with an empty map: the clause is false of the code *)
-Theorem c05_required_map_refuted : exists t d v,
-  unmarshal (fuel_of t) t d = Ok v /\ agrees true t d v = false /\ agrees false t d v = true.
-Proof.
-  exists (Struct [mkfield "v" no_opts false (Map (Prim (KInt W64)))]), (JObj []), (VStruct [VMap []]).
-  vm_compute. repeat split.
-Qed.
-Print Assumptions c05_required_map_refuted.
+(* in particular an absent required map (repaired by /repo c271df3; it used to become an empty map) *)
+Example c05_required_map_example :
+  exists e, unmarshal 4 (Struct [mkfield "v" no_opts false (Map (Prim (KInt W64)))]) (JObj []) = Err e.
+Proof. vm_compute. eexists; reflexivity. Qed.
 
 (* an absent field with a default takes the parsed default (exactly: same integer, fits the kind) *)
 Theorem c05_default : forall n fs m vs i f dv w,
@@ -89,25 +92,49 @@ Theorem c05_optional_succeeds : forall n fs m,
 Proof. exact optional_succeeds. Qed.
 Print Assumptions c05_optional_succeeds.
 
-(* a present value outside options= makes it fail (contrapositive: success => the value's text is an option) *)
-Theorem c05_options_enforced : forall n fs m vs i f w d k,
+(* a present value outside options= makes it fail (contrapositive: success => the value's text is an option).
+   Domain (options_enforced_on): scalar and pointer-to-scalar fields of every kind; a Duration only when it is
+   `string`-tagged.  Outside the domain the code does not consult options= (c05_options_unenforced). *)
+Theorem c05_options_enforced : forall n fs m vs i f w d,
   unm_struct n fs m = Ok (VStruct vs) ->
   nth_error fs i = Some f -> nth_error vs i = Some w -> f_anon f = false ->
-  deref (f_ty f) = Prim k -> dur_opts_ok (f_ty f) (f_opts f) ->
+  options_enforced_on (f_ty f) (f_opts f) ->
   olookup (f_key f) m = Some d -> d <> JNull ->
   value_in_options (f_opts f) d = true.
-Proof. intros. eapply (struct_scalar_present true); eauto. Qed.
+Proof. exact struct_options_enforced. Qed.
 Print Assumptions c05_options_enforced.
 
-(* a present number outside range= makes it fail *)
-Theorem c05_range_enforced : forall n fs m vs i f w d k,
+(* a present number outside range= makes it fail.  Domain (range_enforced_on): sized ints/uints (plain, pointer,
+   `string`-tagged) and `string`-tagged Duration.  Floats: enforced by the code, outside the model (opaque). *)
+Theorem c05_range_enforced : forall n fs m vs i f w d,
   unm_struct n fs m = Ok (VStruct vs) ->
   nth_error fs i = Some f -> nth_error vs i = Some w -> f_anon f = false ->
-  deref (f_ty f) = Prim k -> dur_opts_ok (f_ty f) (f_opts f) -> is_int_ty (f_ty f) = true ->
+  range_enforced_on (f_ty f) (f_opts f) ->
   olookup (f_key f) m = Some d -> d <> JNull ->
   value_in_range (f_opts f) w = true.
-Proof. intros. eapply (struct_scalar_present true); eauto. Qed.
+Proof. exact struct_range_enforced. Qed.
 Print Assumptions c05_range_enforced.
+
+(* outside those domains the clause is FALSE of the code (replayed on Go): Duration, slice and map fields accept
+   values outside options= / range= *)
+Definition o_opt12 := mkopts false None ["1s"; "2s"]%string None false.
+Definition o_rng15 := mkopts false None [] (Some (mkrange (Some 1) true (Some 5) true)) false.
+Definition one_field (o : fopts) (t : ty) := Struct [mkfield "v" o false t].
+Theorem c05_options_range_unenforced :
+  (* time.Duration `options=1s|2s` <- "3s" *)
+  unmarshal 6 (one_field o_opt12 (Prim KDur)) (JObj [("v", JStr "3s")]%string) = Ok (VStruct [VInt 3000000000]) /\
+  (* time.Duration `range=[1:5]` <- "7s" *)
+  unmarshal 6 (one_field o_rng15 (Prim KDur)) (JObj [("v", JStr "7s")]%string) = Ok (VStruct [VInt 7000000000]) /\
+  (* []string `options=1s|2s` <- ["c"] *)
+  unmarshal 6 (one_field o_opt12 (Slice (Prim KStr))) (JObj [("v", JArr [JStr "c"])]%string) = Ok (VStruct [VSlice [VStr "c"]]) /\
+  (* []int `range=[1:5]` <- [7] *)
+  unmarshal 6 (one_field o_rng15 (Slice (Prim (KInt W64)))) (JObj [("v", JArr [JNum "7" (mkfi true true true)])]%string)
+    = Ok (VStruct [VSlice [VInt 7]]) /\
+  (* map[string]int `range=[1:5]` <- {"k":7} *)
+  unmarshal 6 (one_field o_rng15 (Map (Prim (KInt W64)))) (JObj [("v", JObj [("k", JNum "7" (mkfi true true true))])]%string)
+    = Ok (VStruct [VMap [("k"%string, VInt 7)]]).
+Proof. vm_compute. repeat split. Qed.
+Print Assumptions c05_options_range_unenforced.
 
 (* JSON and YAML: the YAML front-end (yaml.v2 value -> toStringKeyMap -> json) hands the unmarshaller exactly the
    document the JSON front-end produces for the same content, hence the same struct / the same error *)
@@ -144,6 +171,36 @@ Theorem c05_conf_idempotent_general_refuted : exists s, to_camel_case (to_camel_
 Proof. exists "_a"%string. vm_compute. discriminate. Qed.
 Print Assumptions c05_conf_idempotent_general_refuted.
 
+(* ROUND TRIP, transport parts (`_partial`): for every escaping with unesc (esc s) = s, every canonical-name function
+   and every trimming transport -- the path variables, the form values and the header values that
+   httpc.buildRequest writes are the ones httpx.Parse reads, under the stated well-formedness (path values present and
+   non-empty [and '/'-free: a path is its list of segments], form values non-empty, header values already trimmed,
+   header names distinct after canonicalisation).  Missing for the full statement: the text conversions
+   fmt.Sprint <-> convertType of the scalars and the JSON body (encoding/json), both covered by the round-trip
+   correspondence stream (Exec.spec_ok: parsed struct = sent struct) only. *)
+Theorem c05_roundtrip_partial : forall esc unesc : string -> string, (forall s, unesc (esc s) = s) ->
+  forall (canon trim : string -> string),
+  (forall p m, (forall n, In n (path_vars p) -> exists v, olookup n m = Some v /\ v <> EmptyString) ->
+     exists w, fill_path esc p m = Some w /\
+       match_path unesc p w = Some (map (fun n => (n, match olookup n m with Some v => v | None => EmptyString end)) (path_vars p))) /\
+  (forall m, (forall kv, In kv m -> snd kv <> EmptyString) -> parse_query unesc (build_query esc m) = m) /\
+  (forall m, NoDup (map (fun kv => canon (fst kv)) m) -> (forall kv, In kv m -> trim (snd kv) = snd kv) ->
+     forall k v, In (k, v) m -> header_get canon k (transport_header trim (build_header canon m)) = Some v).
+Proof.
+  intros esc unesc E canon trim. split; [|split].
+  - intros p m H. destruct (fill_path_defined esc p m H) as [w Hw]. exists w. split; [exact Hw|]. apply path_roundtrip; assumption.
+  - apply query_roundtrip; assumption.
+  - apply header_roundtrip.
+Qed.
+Print Assumptions c05_roundtrip_partial.
+
+Example c05_roundtrip_example :
+  let p := [Lit "api"; Var "id"; Lit "items"; Var "name"]%string in
+  let m := [("name", "a b"); ("id", "42")]%string in
+  fill_path (fun s => s) p m = Some ["api"; "42"; "items"; "a b"]%string /\
+  match_path (fun s => s) p ["api"; "42"; "items"; "a b"]%string = Some [("id", "42"); ("name", "a b")]%string.
+Proof. vm_compute. split; reflexivity. Qed.
+
 (* ---------------- non-vacuity *)
 Example c05_keys_example :
   to_camel_case "user_name" = "userName"%string /\ to_camel_case "UserName" = "userName"%string /\
@@ -170,7 +227,7 @@ Example c05_d1_d9_examples :
   (exists e, unmarshal (fuel_of ex_ty) ex_ty (JObj [("i8", JNum "1" fi0); ("n", JNum "10" fi0); ("s", JArr [])]%string) = Err e).
 Proof. vm_compute. repeat split; eexists; reflexivity. Qed.
 
-Example c05_wf_example : wf_ty ex_ty = true. Proof. reflexivity. Qed.
+Example c05_wf_example : wf_ty ex_ty = true /\ wfx ex_ty = true. Proof. split; reflexivity. Qed.
 Example c05_same_content_example :
   same_content (YMap [("a", YInt (-7)); ("b", YSeq [YBool true; YStr "x"])]%string)
                (JObj [("a", JNum "-7" int_fi); ("b", JArr [JBool true; JStr "x"])]%string) = true.
